@@ -49,17 +49,35 @@ Qed.
 Lemma tev_eqb_spec a b : tev_eqb a b = true <-> a = b.
 Proof. apply pair_eqb_spec; [apply Nat.eqb_eq | apply cev_eqb_spec]. Qed.
 
+Lemma ev3_eqb_spec a b : ev3_eqb a b = true <-> a = b.
+Proof.
+  split; [|intros ->; apply ev3_eqb_refl].
+  destruct a as [[[a1 a2] a3] a4], b as [[[b1 b2] b3] b4]. unfold ev3_eqb. simpl. intro H.
+  apply andb_true_iff in H as [H H4]. apply andb_true_iff in H as [H H3]. apply andb_true_iff in H as [H1 H2].
+  apply Nat.eqb_eq in H1, H2. apply rcode_eqb_spec in H3. apply tstamp_eqb_spec in H4. subst. reflexivity.
+Qed.
+
+Lemma dl_eqb_spec a b : dl_eqb a b = true <-> a = b.
+Proof.
+  destruct a as [x r], b as [y q]. unfold dl_eqb. simpl. rewrite andb_true_iff, ev3_eqb_spec, bool_eqb_spec.
+  split; [intros [-> ->]; reflexivity | intro H; injection H as -> ->; auto].
+Qed.
+
 Lemma aobs_eqb_spec a b : aobs_eqb a b = true <-> a = b.
 Proof.
-  destruct a as [t1 x1 r1 l1 s1 d1 f1], b as [t2 x2 r2 l2 s2 d2 f2]; unfold aobs_eqb; simpl; split; intro H.
-  - apply andb_true_iff in H as [H H7]. apply andb_true_iff in H as [H H6]. apply andb_true_iff in H as [H H5].
-    apply andb_true_iff in H as [H H4]. apply andb_true_iff in H as [H H3]. apply andb_true_iff in H as [H1 H2].
-    apply (list_eqb_spec _ (list_eqb_spec _ cev_eqb_spec)) in H1. apply (list_eqb_spec _ tev_eqb_spec) in H2.
-    apply (proj1 (bool_eqb_spec _ _)) in H3. apply (list_eqb_spec _ bool_eqb_spec) in H4.
-    apply (list_eqb_spec _ Nat.eqb_eq) in H5. apply (proj1 (bool_eqb_spec _ _)) in H6.
-    apply (proj1 (bool_eqb_spec _ _)) in H7. subst. reflexivity.
-  - injection H as -> -> -> -> -> -> ->. repeat (apply andb_true_iff; split).
-    + apply (list_eqb_spec _ (list_eqb_spec _ cev_eqb_spec)). reflexivity.
+  destruct a as [p1 t1 x1 r1 l1 s1 d1 f1], b as [p2 t2 x2 r2 l2 s2 d2 f2]; unfold aobs_eqb; simpl; split; intro H.
+  - apply andb_true_iff in H as [H H8]. apply andb_true_iff in H as [H H7]. apply andb_true_iff in H as [H H6].
+    apply andb_true_iff in H as [H H5]. apply andb_true_iff in H as [H H4]. apply andb_true_iff in H as [H H3].
+    apply andb_true_iff in H as [H1 H2].
+    apply (list_eqb_spec _ Nat.eqb_eq) in H1.
+    apply (list_eqb_spec _ (pair_eqb_spec _ _ (list_eqb_spec _ gev_eqb_spec) (list_eqb_spec _ dl_eqb_spec))) in H2.
+    apply (list_eqb_spec _ tev_eqb_spec) in H3.
+    apply (proj1 (bool_eqb_spec _ _)) in H4. apply (list_eqb_spec _ bool_eqb_spec) in H5.
+    apply (list_eqb_spec _ Nat.eqb_eq) in H6. apply (proj1 (bool_eqb_spec _ _)) in H7.
+    apply (proj1 (bool_eqb_spec _ _)) in H8. subst. reflexivity.
+  - injection H as -> -> -> -> -> -> -> ->. repeat (apply andb_true_iff; split).
+    + apply (list_eqb_spec _ Nat.eqb_eq). reflexivity.
+    + apply (list_eqb_spec _ (pair_eqb_spec _ _ (list_eqb_spec _ gev_eqb_spec) (list_eqb_spec _ dl_eqb_spec))). reflexivity.
     + apply (list_eqb_spec _ tev_eqb_spec). reflexivity.
     + apply bool_eqb_spec. reflexivity.
     + apply (list_eqb_spec _ bool_eqb_spec). reflexivity.
@@ -120,8 +138,8 @@ Proof.
   - intros Hr Hnone w Hw. rewrite Hr in H7. apply andb_true_iff in H7 as [_ H7].
     apply orb_true_iff in H7 as [H7|H7].
     + apply existsb_exists in H7 as (b & Hb & ->). specialize (Hnone true Hb). discriminate.
-    + rewrite forallb_forall in H7. specialize (H7 w Hw). apply existsb_exists in H7 as (x & Hx & E).
-      apply Nat.eqb_eq in E. subst. exact Hx.
+    + rewrite forallb_idx_spec in H7. specialize (H7 w true Hw). simpl in H7.
+      apply existsb_exists in H7 as (x & Hx & E). apply Nat.eqb_eq in E. subst. exact Hx.
 Qed.
 
 Lemma stream_worker_sound routes base raised tr w s :
